@@ -116,7 +116,11 @@ def setup_code(rng, names):
         code.append(['newproc', x, ['gen'] + gen_code(rng, names, 0, x)])
         if rng.random() < 0.3:
             evs = names.of('event', 'timeout', 'proc', 'cond')
-            code.append(['newcond', names.new('cond'), rng.choice(['all', 'any']), ['members'] + rng.sample(evs, min(len(evs), rng.randint(1, 3)))])
+            members = rng.sample(evs, min(len(evs), rng.randint(1, 3)))
+            if rng.random() < 0.3:
+                # the same event listed twice (`a & a`, `all_of([a, b, a])`): every listed member counts
+                members.insert(rng.randint(0, len(members)), rng.choice(members))
+            code.append(['newcond', names.new('cond'), rng.choice(['all', 'all', 'any']), ['members'] + members])
         if rng.random() < 0.25 and len(names.of('event', 'timeout', 'proc')) >= 3:
             # a mixed nested condition such as (a & b) | c, waited for by a process of its own
             leaves = rng.sample(names.of('event', 'timeout', 'proc'), 3)
